@@ -8,7 +8,8 @@
 (* the next reset.                                                                              *)
 EXTENDS Ledger, Sequences, Json
 CONSTANTS TraceFile
-VARIABLES l, live
+VARIABLES l, live,
+          auth    \* observation only: account -> [num, seq] of the labelled user accounts
 Trace == ndJsonDeserialize(TraceFile)
 E == Trace[l]
 P == E.post
@@ -53,6 +54,7 @@ Props ==
   /\ Chk("LG_Conserve", LG_Conserve) /\ Chk("LG_RnsBacked", LG_RnsBacked') /\ Chk("LG_CollBacked", LG_CollBacked')
   /\ Chk("LG_MintOut", LG_MintOut) /\ Chk("LG_NonNeg", LG_NonNeg') /\ Chk("LG_Supply", LG_Supply) /\ Chk("LG_FailFree", LG_FailFree)
   /\ Chk("LG_StorKeeps", LG_StorKeeps) /\ Chk("LG_GaugeHold", LG_GaugeHold)
+  /\ Chk("LG_Auth", AuthStable(auth, P.auth, IF "signer" \in DOMAIN E THEN E.signer ELSE "none"))
   \* non-trivial steps per property clause
   /\ NT("LG_C03", E.a = "block" /\ \E d \in Denoms : D("gauges", d) < 0)
   /\ NT("LG_C04", Kind = "pay" \/ (~(E.a = "block") /\ ~E.ok /\ (Url("storage.MsgBuyStorage") \/ Url("storage.MsgPostFile"))))
@@ -61,23 +63,24 @@ Props ==
   /\ NT("LG_C13", E.a = "block")
   /\ NT("LG_C15", Kind \in {"initprovider", "shutdown"})
   /\ NT("LG_C16", Url("rns.MsgRegisterName") \/ Url("rns.MsgRegister"))
+  /\ NT("LG_C11", E.a = "tx" /\ E.ok)
 
 TStep == /\ E.a \in {"tx", "block"} /\ l' = l + 1
          /\ IF live /\ ~P.big
-            THEN /\ Logged /\ live' = TRUE
+            THEN /\ Logged /\ live' = TRUE /\ auth' = P.auth
                  /\ emission' = IF E.a = "block" THEN P.supply[MintDenom] - supply[MintDenom] ELSE emission
                  /\ last' = Lbl(Kind, E.a = "block" \/ E.ok)
                  /\ (IF SpecAct(Kind) THEN TRUE ELSE Report_("DRIFT", Kind))
                  /\ Props
-            ELSE /\ UNCHANGED <<bal, bids, coll, supply, emission, last>> /\ live' = FALSE
+            ELSE /\ UNCHANGED <<bal, bids, coll, supply, emission, last, auth>> /\ live' = FALSE
 TReset == /\ E.a = "reset" /\ l' = l + 1 /\ live' = ~P.big
-          /\ IF P.big THEN UNCHANGED <<bal, bids, coll, supply>> ELSE Logged
+          /\ IF P.big THEN UNCHANGED <<bal, bids, coll, supply, auth>> ELSE (Logged /\ auth' = P.auth)
           /\ emission' = BIGE /\ last' = [a |-> "reset", ok |-> TRUE]
 Z == [d \in Denoms |-> 0]
 TInit == /\ l = 1 /\ live = FALSE /\ bal = [c \in Classes |-> Z] /\ bids = Z /\ coll = 0 /\ supply = Z
-         /\ emission = BIGE /\ last = [a |-> "init", ok |-> TRUE]
+         /\ emission = BIGE /\ last = [a |-> "init", ok |-> TRUE] /\ auth = <<>>
 TNext == l <= Len(Trace) /\ (TStep \/ TReset)
-TSpec == TInit /\ [][TNext]_<<vars, last, l, live>>
+TSpec == TInit /\ [][TNext]_<<vars, last, l, live, auth>>
 HW == TLCSet(1, IF TLCGet(1) < l THEN l ELSE TLCGet(1))
 ASSUME TLCSet(1, 0)
 Accepted == IF TLCGet(1) = Len(Trace) + 1 THEN PrintT(<<"ACCEPTED", Len(Trace)>>)
